@@ -100,6 +100,12 @@ DM_ACC = [
     ("dominance.compare(last,first)", lambda dm: dm.dominance.compare(dm.alternatives[-1], dm.alternatives[0])),
     ("dominance.dominators_of(strict=False)", lambda dm: dm.dominance.dominators_of(_most_dominated(dm), strict=False)),
     ("stats.describe", lambda dm: dm.stats("describe")), ("stats.max", lambda dm: dm.stats.max()),
+    # the dict-like spellings of the two label arrays
+    ("criteria.values()", lambda dm: list(dm.criteria.values())[0]),
+    ("criteria.items()", lambda dm: list(dm.criteria.items())[-1][1]),
+    ("alternatives.values()", lambda dm: list(dm.alternatives.values())[-1]),
+    ("alternatives.items()", lambda dm: dict(dm.alternatives.items())[dm.alternatives[0]]),
+    ("criteria.get", lambda dm: dm.criteria.get(dm.criteria[0])),
     ("dominance.dominators_of", lambda dm: dm.dominance.dominators_of(_most_dominated(dm))),
 ]
 RES_ACC = [
@@ -141,7 +147,8 @@ def routes_for(obj):
     if isinstance(obj, np.ndarray):
         rs += ["arr_item", "arr_fill", "arr_sort", "arr_iadd", "arr_copyto", "arr_asarray"]
     if isinstance(obj, (pd.Series, pd.DataFrame)):
-        rs += ["pd_values", "pd_to_numpy", "pd_iloc", "pd_iadd", "pd_index_name", "pd_index_values", "pd_sort_inplace"]
+        rs += ["pd_values", "pd_to_numpy", "pd_iloc", "pd_iadd", "pd_index_name", "pd_index_values", "pd_sort_inplace",
+               "pd_array"]
     if isinstance(obj, dict):
         rs += ["dict_set"]
     if isinstance(obj, list):
@@ -191,6 +198,19 @@ def mutate(obj, route):
         elif route == "pd_to_numpy":
             v = obj.to_numpy()      # no setflags: a read-only view is a refused write
             v[0 if v.ndim == 1 else (0, 0)] = poison(v)
+        elif route == "pd_array":
+            # below pandas' copy-on-write: the ExtensionArray / ndarray backing the object
+            cols = [obj] if isinstance(obj, pd.Series) else [obj[c] for c in obj.columns]
+            ok = False
+            for s_ in cols:
+                for v in (s_.array, np.asarray(s_.array)):
+                    try:
+                        v[0] = poison(np.asarray(v))
+                        ok = True
+                    except (ValueError, TypeError):
+                        pass
+            if not ok:
+                return False
         elif route == "pd_iloc":
             if isinstance(obj, pd.Series):
                 obj.iloc[0] = poison(obj.to_numpy())
@@ -227,7 +247,34 @@ def mutate(obj, route):
         return False
 
 
-METHODS = ["transform", "evaluate", "pipeline", "eq", "rrt"]
+METHODS = ["transform", "evaluate", "pipeline", "eq", "rrt", "user_inplace", "user_inplace"]
+
+
+def _user_inplace_objects():
+    """User-defined methods (skcriteria.extend) that work IN PLACE on what they are handed: they may scribble over
+    their arguments, not over the decision matrix the caller passed."""
+    from skcriteria.extend import mkagg, mktransformer
+
+    @mktransformer
+    def InPlaceT(matrix, weights, objectives, **kwargs):
+        for a in (matrix, weights):
+            try:
+                a *= 2.0
+                a[...] = a[::-1].copy()
+            except (ValueError, TypeError):     # a read-only argument is a refused write
+                pass
+        return {"matrix": matrix, "weights": weights}
+
+    @mkagg
+    def InPlaceA(matrix, weights, objectives, **kwargs):
+        from skcriteria.utils import rank
+        for a in (matrix, weights):
+            try:
+                a += 1.0
+            except (ValueError, TypeError):
+                pass
+        return rank.rank_values(np.asarray(matrix, dtype=float) @ np.asarray(weights, dtype=float), reverse=True), {}
+    return InPlaceT(), InPlaceA()
 
 
 def run_method(dm, name, rng_seed):
@@ -242,11 +289,35 @@ def run_method(dm, name, rng_seed):
             M.make({"name": "electre1"}).evaluate(dm)
         elif name == "pipeline":
             mkpipe(T.build({"cls": "VectorScaler", "params": {"target": "both"}}), M.make({"name": "ratio"})).evaluate(dm)
+        elif name == "user_inplace":
+            t, a = _user_inplace_objects()
+            try:
+                t.transform(dm)
+            except Exception:  # noqa: BLE001
+                pass
+            try:
+                a.evaluate(dm)
+            except Exception:  # noqa: BLE001
+                pass
+            try:
+                mkpipe(t, a).evaluate(dm)
+            except Exception:  # noqa: BLE001
+                pass
         elif name == "eq":
             _ = (dm == dm.copy(), dm != dm.copy(), dm.diff(dm.copy()))
         elif name == "rrt":
             from skcriteria.cmp.ranks_rev.rank_inv_check import RankInvariantChecker
-            RankInvariantChecker(M.make({"name": "topsis"}), random_state=rng_seed, repeat=1).evaluate(dm)
+            import signal
+
+            def _alarm(*_a):
+                raise TimeoutError("rank-reversal test did not finish (known non-termination on zero bounds)")
+            old = signal.signal(signal.SIGALRM, _alarm)
+            signal.setitimer(signal.ITIMER_REAL, 15)
+            try:
+                RankInvariantChecker(M.make({"name": "topsis"}), random_state=rng_seed, repeat=1).evaluate(dm)
+            finally:
+                signal.setitimer(signal.ITIMER_REAL, 0)
+                signal.signal(signal.SIGALRM, old)
     except Exception:  # noqa: BLE001
         pass
 
